@@ -14,6 +14,7 @@ import (
 	"time"
 
 	"golang.org/x/sys/unix"
+	"google.golang.org/protobuf/proto"
 
 	"github.com/mutagen-io/mutagen/pkg/filesystem"
 	"github.com/mutagen-io/mutagen/pkg/logging"
@@ -287,7 +288,7 @@ func (d *diskState) hook(op string, dirfd int, path string, dirfd2 int, path2 st
 	} else if f := s.MatchFault("fs_user", gateSide+"."+activity, n); f != nil {
 		if kind, rel, ok := strings.Cut(f.S, ":"); ok {
 			s.Count("fault.fs_user."+kind, 1)
-			d.userOp(simkit.Op{Actor: "user", Kind: kind, N: []int64{f.Arg, 0}, S: []string{gateSide, rel}})
+			d.userOp(simkit.Op{Actor: "user", Kind: kind, N: []int64{f.Arg, 0}, S: []string{gateSide, rel, "a"}})
 		}
 	}
 	// A filesystem without RENAME_NOREPLACE (NFS, many FUSE filesystems): every
@@ -659,6 +660,40 @@ func (d *diskState) userOp(op simkit.Op) {
 		for _, n := range names {
 			rmAll(filepath.Join(root, n.Name()))
 		}
+	case "cp", "mv":
+		// A copy or a rename within one root: the same content (and, for mv, the
+		// same inode and modification time) shows up at another path.
+		to := op.Str(2)
+		if rel == "" || to == "" || pathRelated(rel, to) || !parentsAreDirs(root, rel) {
+			return
+		}
+		if _, err := os.Lstat(abs); err != nil {
+			return
+		}
+		d.clearPath(root, to)
+		absTo := filepath.Join(root, to)
+		if op.Kind == "mv" {
+			os.Rename(abs, absTo)
+		} else {
+			copyTree(abs, absTo)
+		}
+		if parent := filepath.Dir(absTo); parent != root && strings.HasPrefix(parent, root) {
+			d.touch(parent)
+		}
+		d.recordEdit(side, to)
+	case "arm":
+		// S: side, activity, kind, path; N: countdown, content id. A user action
+		// that strikes just before the Nth hooked system call of that activity
+		// on that side, counted from now.
+		act, kind, path := op.Str(1), op.Str(2), op.Str(3)
+		n, id := op.Int(0), op.Int(1)
+		d.mu.Lock()
+		d.midcycle = &midcycleEvent{side: side, activity: act, countdown: int(n), fire: func() {
+			d.h.s.Count("fault.fs_user_armed."+kind, 1)
+			d.userOp(simkit.Op{Actor: "user", Kind: kind, N: []int64{id, 0}, S: []string{side, path, "a"}})
+		}}
+		d.mu.Unlock()
+		return
 	case "fill":
 		// Something else on the same device uses up its space (the file lies
 		// beside the root, not in it), leaving N pages free.
@@ -877,6 +912,10 @@ func (e *diskEndpoint) Scan(ctx context.Context, ancestor *core.Entry, full bool
 	userDuring := h.userSeq[e.side] > started
 	lastChange := max(h.userSeq[e.side], d.transEnd[e.side])
 	exact := (full && !userDuring) || (d.freshAt[e.side] > lastChange)
+	// C42: after a snapshot was verified and with the user idle since, only
+	// transitions have changed this side; a scan that starts after the last of
+	// them returned must not hand out a snapshot taken before it finished.
+	afterTransition := !exact && d.freshAt[e.side] > h.userSeq[e.side] && d.transEnd[e.side] > d.freshAt[e.side] && started > d.transEnd[e.side]
 	if fresh {
 		d.freshAt[e.side] = h.next()
 	} else {
@@ -884,6 +923,12 @@ func (e *diskEndpoint) Scan(ctx context.Context, ancestor *core.Entry, full bool
 	}
 	ideal := h.ideal
 	h.mu.Unlock()
+	if afterTransition && ideal {
+		h.s.Count("probe.scans_after_transition_checked", 1)
+		if !fresh {
+			h.s.Violate("C42", "stale-snapshot-after-transition", "session-scan", "%s scan (full=%v, remote=%v) started after the last transition on that side had returned and the user was idle, yet it returned %s while the root holds %s", e.side, full, e.remote, render(snap.Content), render(ref))
+		}
+	}
 	if exact && ideal {
 		if !fresh {
 			prop := "C12"
@@ -910,7 +955,17 @@ func (e *diskEndpoint) Scan(ctx context.Context, ancestor *core.Entry, full bool
 	d.mu.Lock()
 	d.lastSnap[e.side] = snap.Content
 	d.mu.Unlock()
-	h.onScanReturn(e.side, ancestor, snap.Content, snap.PreservesExecutability, started)
+	if !h.preserve[e.side] {
+		// This real endpoint plays a filesystem that cannot store executability
+		// (none can be mounted here): the controller receives a copy of the
+		// snapshot without executable bits that says so. Everything above was
+		// checked on the unmasked snapshot.
+		masked := proto.Clone(snap).(*core.Snapshot)
+		masked.Content = withoutExec(snap.Content)
+		masked.PreservesExecutability = false
+		snap = masked
+	}
+	h.onScanReturn(e.side, ancestor, snap.Content, snap.PreservesExecutability, started, fresh)
 	h.s.Logf("ctl."+e.side, "scan full=%v -> %s", full, render(snap.Content))
 	return snap, err, again
 }
@@ -974,7 +1029,14 @@ func (e *diskEndpoint) Transition(ctx context.Context, transitions []*core.Chang
 	d.mu.Lock()
 	d.transStart[e.side] = invoked
 	d.mu.Unlock()
+	var execBefore *core.Entry
+	if h.preserve[e.side] && !h.preserve[other(e.side)] {
+		execBefore = d.walkTree(e.side)
+	}
 	results, problems, missing, err := e.inner.Transition(ctx, transitions)
+	if execBefore != nil {
+		d.checkExecutabilityKept(e.side, invoked, transitions, execBefore)
+	}
 	d.mu.Lock()
 	d.transStart[e.side] = 0
 	d.mu.Unlock()
@@ -1061,6 +1123,44 @@ func (e *diskEndpoint) Transition(ctx context.Context, transitions []*core.Chang
 	}
 	h.s.Logf("ctl."+e.side, "transition %d changes -> %d problems missing=%v -> %s", len(transitions), len(problems), missing, render(tree))
 	return results, problems, missing, err
+}
+
+// checkExecutabilityKept is the on-disk half of C18 for the endpoint that stores
+// executability when the other one cannot: a file that was there before the
+// transition and is there after it, and whose content on this side was unchanged
+// since the last synchronization, keeps the executable bit it had on disk
+// (changes coming from the other side carry no executability of their own).
+func (d *diskState) checkExecutabilityKept(side string, invoked int64, transitions []*core.Change, before *core.Entry) {
+	h := d.h
+	after := d.walkTree(side)
+	anc, err := h.loadArchive()
+	if err != nil {
+		return
+	}
+	for _, t := range transitions {
+		walk(t.Old, t.Path, func(p string, o *core.Entry) {
+			if o.Kind != core.EntryKind_File {
+				return
+			}
+			b, a, arch := lookup(before, p), lookup(after, p), lookup(anc, p)
+			if b == nil || a == nil || b.Kind != core.EntryKind_File || a.Kind != core.EntryKind_File {
+				return
+			}
+			if arch == nil || arch.Kind != core.EntryKind_File || !bytes.Equal(arch.Digest, b.Digest) {
+				return // modified here as well: the winner replaces it wholesale, by design
+			}
+			d.mu.Lock()
+			touched := d.userEdit[side+":"+p] > invoked
+			d.mu.Unlock()
+			if touched {
+				return
+			}
+			h.s.Count("probe.exec_kept_checked_on_disk", 1)
+			if a.Executable != b.Executable {
+				h.s.Violate("C18", "executability-changed-on-disk", "Transition", "file %q on %s (which stores executability; the other endpoint cannot) was executable=%v on disk before the transition and is executable=%v after it, although its content here was unchanged since the last synchronization", p, side, b.Executable, a.Executable)
+			}
+		})
+	}
 }
 
 func (e *diskEndpoint) Shutdown() error {
